@@ -225,6 +225,8 @@ type cmdCase struct {
 	// PreludeWrite / PreludeMkdir: after the earlier invocations (and after PreludeRemove) these files are
 	// (re)written and these directories made: what happened to the disk between two invocations of one process
 	PreludeWrite map[string][]byte
+	// Twins: command lines run by other callers of the process at the same time as the observed invocation
+	Twins        [][]string
 	PreludeMkdir []string
 }
 
@@ -279,7 +281,7 @@ func (c *cmdCase) spec(seed uint64) *simrt.Spec {
 	args = append(args, c.Extra...)
 	args = append(args, c.Prog.Main)
 	sp.Args = args
-	if len(c.Prelude) > 0 || c.SdkWd != "" {
+	if len(c.Prelude) > 0 || c.SdkWd != "" || len(c.Twins) > 0 {
 		d := map[string]interface{}{}
 		if len(c.Prelude) > 0 {
 			d["prelude"] = c.Prelude
@@ -295,6 +297,9 @@ func (c *cmdCase) spec(seed uint64) *simrt.Spec {
 		}
 		if len(c.PreludeWrite) > 0 {
 			d["prelude_write"] = c.PreludeWrite
+		}
+		if len(c.Twins) > 0 {
+			d["twins"] = c.Twins
 		}
 		if len(c.PreludeMkdir) > 0 {
 			d["prelude_mkdir"] = c.PreludeMkdir
@@ -319,6 +324,9 @@ func outputs(res *simrt.Result, outDir string) map[string]string {
 	for _, a := range res.FSLog {
 		if a.Op == "open-w" && a.Err == "" {
 			p := a.Path
+			if strings.HasPrefix(p, "/concurrent/") {
+				continue // written by another caller of the process that generates at the same time
+			}
 			key := p
 			if strings.HasPrefix(p, outDir+"/") {
 				key = "$OUT/" + strings.TrimPrefix(p, outDir+"/")
